@@ -19,34 +19,40 @@ Record Agree (st : state) (D' : defs) (inp' : list (item * val))
   ag_ref : forall r, PR r -> lookup_ref (snd D') r = lookup_ref (s_refs st) r;
   ag_refdom : forall r, lookup_ref (s_refs st) r = None -> lookup_ref (snd D') r = None;
   ag_inp : forall i, PI i -> lookup_data inp' i = lookup_data (input_data st) i;
-  ag_ok : defs_ok (s_cells st);
   (** the reads of a safe held element are safe again *)
   ag_inh : forall m, has st m -> mem_item m (s_inputs st) = false -> PI m -> PC (fst m) ->
            exists f v ds, dr_own f (defs_of st) (input_data st) m = (Val v, ds) /\
                           Forall (safe_rd st PC PR PI) ds }.
 
+(** the results that can occur inside the evaluation of a held element: a
+    value, or a failure that a formula can handle (every other failure would
+    have escaped, and the element would hold nothing) *)
+Definition okres {A} (r : res A) : Prop :=
+  match r with Val _ => True | Err k => catchable k = true | OutOfFuel => False end.
+
+Lemma okres_fuel {A} (r : res A) : okres r -> r <> OutOfFuel.
+Proof. destruct r; simpl; intros H; [discriminate|discriminate|contradiction]. Qed.
+
 Definition L_expr st D' inp' PC PR PI (g : nat) : Prop :=
   forall me args locs e r ds,
-    dr_expr g (defs_of st) (input_data st) me args locs e = (r, ds) -> r <> OutOfFuel ->
-    (is_true (match r with Val _ => true | _ => false end) \/ call_free e = true) ->
+    dr_expr g (defs_of st) (input_data st) me args locs e = (r, ds) -> okres r ->
     Forall (safe_rd st PC PR PI) ds ->
     dr_expr g D' inp' me args locs e = (r, ds).
 Definition L_args st D' inp' PC PR PI (g : nat) : Prop :=
-  forall me args locs es vs ds,
-    dr_args g (defs_of st) (input_data st) me args locs es = (Val vs, ds) ->
+  forall me args locs es r ds,
+    dr_args g (defs_of st) (input_data st) me args locs es = (r, ds) -> okres r ->
     Forall (safe_rd st PC PR PI) ds ->
-    dr_args g D' inp' me args locs es = (Val vs, ds).
+    dr_args g D' inp' me args locs es = (r, ds).
 Definition L_node st D' inp' PC PR PI (g : nat) : Prop :=
-  forall i v ds,
-    dr_node g (defs_of st) (input_data st) i = (Val v, ds) ->
+  forall i r ds,
+    dr_node g (defs_of st) (input_data st) i = (r, ds) -> okres r ->
     Forall (safe_rd st PC PR PI) ds ->
-    dr_node g D' inp' i = (Val v, ds).
+    dr_node g D' inp' i = (r, ds).
 Definition L_body st D' inp' PC PR PI (g : nat) : Prop :=
-  forall me args locs rest v ds,
-    dr_body g (defs_of st) (input_data st) me args locs rest = (Val v, ds) ->
-    body_ok rest = true ->
+  forall me args locs rest r ds,
+    dr_body g (defs_of st) (input_data st) me args locs rest = (r, ds) -> okres r ->
     Forall (safe_rd st PC PR PI) ds ->
-    dr_body g D' inp' me args locs rest = (Val v, ds).
+    dr_body g D' inp' me args locs rest = (r, ds).
 
 Lemma Forall_app_l {A} (P : A -> Prop) a b : Forall P (a ++ b) -> Forall P a.
 Proof. intros H. apply Forall_app in H. tauto. Qed.
@@ -60,64 +66,45 @@ Lemma locality st D' inp' PC PR PI :
 Proof.
   intros AG. induction g as [|g (IHe & IHa & IHn & IHb)].
   { split; [|split; [|split]]; unfold L_expr, L_args, L_node, L_body; intros; simpl in *;
-      match goal with H : (_, _) = (_, _) |- _ => inversion H; subst; try congruence end. }
+      match goal with H : (_, _) = (_, _) |- _ => inversion H; subst; try contradiction end. }
   split; [|split; [|split]].
   - (* expr *)
-    intros me args locs e r ds H Hr Hk Hs. destruct e; simpl in H |- *; try exact H.
+    intros me args locs e r ds H Hk Hs. destruct e; simpl in H |- *; try exact H.
     + (* EBin *)
       destruct (dr_expr g (defs_of st) (input_data st) me args locs e1) as [ra d1] eqn:Da.
-      assert (Hra : ra <> OutOfFuel) by (intros ->; inversion H; subst; congruence).
-      destruct ra as [va|k|]; [| |congruence].
+      destruct ra as [va|k|]; [| |inversion H; subst; contradiction].
       * destruct (dr_expr g (defs_of st) (input_data st) me args locs e2) as [rb d2] eqn:Db.
-        assert (Hrb : rb <> OutOfFuel) by (intros ->; inversion H; subst; congruence).
         assert (Hds : ds = d1 ++ d2) by (destruct rb; inversion H; reflexivity). subst ds.
-        assert (Ka : is_true true \/ call_free e1 = true) by (now left).
-        assert (Kb : is_true (match rb with Val _ => true | _ => false end) \/ call_free e2 = true).
-        { destruct Hk as [Hk|Hk].
-          - destruct rb; [now left|inversion H; subst; discriminate Hk|congruence].
-          - simpl in Hk. apply andb_true_iff in Hk. tauto. }
-        rewrite (IHe _ _ _ _ _ _ Da ltac:(discriminate) Ka (Forall_app_l _ _ _ Hs)).
-        rewrite (IHe _ _ _ _ _ _ Db Hrb Kb (Forall_app_r _ _ _ Hs)). exact H.
-      * inversion H; subst.
-        destruct Hk as [Hk|Hk]; [discriminate Hk|]. simpl in Hk. apply andb_true_iff in Hk as (K1 & _).
-        now rewrite (IHe _ _ _ _ _ _ Da ltac:(discriminate) (or_intror K1) Hs).
+        assert (Kb : okres rb).
+        { destruct rb; [exact I|inversion H; subst; exact Hk|inversion H; subst; contradiction]. }
+        rewrite (IHe _ _ _ _ _ _ Da I (Forall_app_l _ _ _ Hs)).
+        rewrite (IHe _ _ _ _ _ _ Db Kb (Forall_app_r _ _ _ Hs)). exact H.
+      * inversion H; subst. now rewrite (IHe _ _ _ _ _ _ Da Hk Hs).
     + (* EIfPos *)
       destruct (dr_expr g (defs_of st) (input_data st) me args locs e1) as [ra d1] eqn:Da.
-      assert (Hra : ra <> OutOfFuel) by (intros ->; inversion H; subst; congruence).
-      assert (Kc : forall x, x = e1 \/ x = e2 \/ x = e3 -> call_free (EIfPos e1 e2 e3) = true -> call_free x = true).
-      { intros x Hx Hc. simpl in Hc. apply andb_true_iff in Hc as (Hc12 & Hc3).
-        apply andb_true_iff in Hc12 as (Hc1 & Hc2). destruct Hx as [->|[->| ->]]; assumption. }
-      destruct ra as [[z|]|k|]; [| | |congruence].
+      destruct ra as [[z|]|k|]; [| | |inversion H; subst; contradiction].
       * destruct (if Z.ltb 0 z then dr_expr g (defs_of st) (input_data st) me args locs e2
                   else dr_expr g (defs_of st) (input_data st) me args locs e3) as [rb d2] eqn:Db.
         inversion H; subst r ds. clear H.
-        rewrite (IHe _ _ _ _ _ _ Da ltac:(discriminate) (or_introl eq_refl) (Forall_app_l _ _ _ Hs)).
-        assert (Kb : forall eb, eb = e2 \/ eb = e3 ->
-                     is_true (match rb with Val _ => true | _ => false end) \/ call_free eb = true).
-        { intros eb Heb. destruct Hk as [Hk|Hk]; [now left|right]. apply (Kc eb); tauto. }
+        rewrite (IHe _ _ _ _ _ _ Da I (Forall_app_l _ _ _ Hs)).
         destruct (Z.ltb 0 z).
-        -- now rewrite (IHe _ _ _ _ _ _ Db Hr (Kb e2 (or_introl eq_refl)) (Forall_app_r _ _ _ Hs)).
-        -- now rewrite (IHe _ _ _ _ _ _ Db Hr (Kb e3 (or_intror eq_refl)) (Forall_app_r _ _ _ Hs)).
-      * inversion H; subst.
-        destruct Hk as [Hk|Hk]; [discriminate Hk|].
-        now rewrite (IHe _ _ _ _ _ _ Da ltac:(discriminate) (or_intror (Kc e1 (or_introl eq_refl) Hk)) Hs).
-      * inversion H; subst.
-        destruct Hk as [Hk|Hk]; [discriminate Hk|].
-        now rewrite (IHe _ _ _ _ _ _ Da ltac:(discriminate) (or_intror (Kc e1 (or_introl eq_refl) Hk)) Hs).
+        -- now rewrite (IHe _ _ _ _ _ _ Db Hk (Forall_app_r _ _ _ Hs)).
+        -- now rewrite (IHe _ _ _ _ _ _ Db Hk (Forall_app_r _ _ _ Hs)).
+      * inversion H; subst. simpl in Hk. discriminate Hk.
+      * inversion H; subst. now rewrite (IHe _ _ _ _ _ _ Da Hk Hs).
     + (* ECall *)
-      destruct Hk as [Hk|Hk]; [|discriminate Hk].
       destruct (dr_args g (defs_of st) (input_data st) me args locs args0) as [ra d1] eqn:Da.
-      destruct ra as [vs|k|]; [|inversion H; subst; discriminate Hk|inversion H; subst; congruence].
+      destruct ra as [vs|k|]; [| |inversion H; subst; contradiction].
+      2:{ inversion H; subst. now rewrite (IHa _ _ _ _ _ _ Da Hk Hs). }
       unfold defs_of in H; simpl in H.
-      destruct (lookup_cell (s_cells st) c) as [cl|] eqn:El; [|inversion H; subst; discriminate Hk].
-      destruct (bind_pos cl vs) as [k|] eqn:Eb; [|inversion H; subst; discriminate Hk].
+      destruct (lookup_cell (s_cells st) c) as [cl|] eqn:El; [|inversion H; subst; simpl in Hk; discriminate Hk].
+      destruct (bind_pos cl vs) as [k|] eqn:Eb; [|inversion H; subst; simpl in Hk; discriminate Hk].
       destruct (dr_node g (s_cells st, s_refs st) (input_data st) (c, k)) as [rb d2] eqn:Db.
       inversion H; subst r ds. clear H.
-      destruct rb as [v|kk|]; [|discriminate Hk|congruence].
-      rewrite (IHa _ _ _ _ _ _ Da (Forall_app_l _ _ _ Hs)).
+      rewrite (IHa _ _ _ _ _ _ Da I (Forall_app_l _ _ _ Hs)).
       (* the callee's definition is among the safe reads *)
       assert (Hpc : PC c).
-      { pose proof (Forall_app_r _ _ _ Hs) as Hs2. destruct g; [simpl in Db; inversion Db|].
+      { pose proof (Forall_app_r _ _ _ Hs) as Hs2. destruct g; [simpl in Db; inversion Db; subst; contradiction|].
         simpl in Db. rewrite El in Db.
         destruct (cl_cached cl).
         - assert (d2 = [RItem (c, k)]).
@@ -128,7 +115,7 @@ Proof.
         - destruct (dr_body g (s_cells st, s_refs st) (input_data st) c k [] (cl_body cl)) as [[w|e'|] dd];
             inversion Db; subst; inversion Hs2 as [|? ? Hx _]; subst; exact Hx. }
       rewrite (ag_cell _ _ _ _ _ _ AG c Hpc), El, Eb.
-      now rewrite (IHn _ _ _ Db (Forall_app_r _ _ _ Hs)).
+      now rewrite (IHn _ _ _ Db Hk (Forall_app_r _ _ _ Hs)).
     + (* ERefN *)
       unfold defs_of in H; simpl in H. inversion H; subst ds.
       inversion Hs as [|? ? Hx _]; subst. simpl in Hx.
@@ -140,17 +127,19 @@ Proof.
         now rewrite (ag_ref _ _ _ _ _ _ AG r0 Hx), El.
       * now rewrite (ag_refdom _ _ _ _ _ _ AG r0 El).
   - (* args *)
-    intros me args locs es vs ds H Hs. destruct es as [|e rest]; simpl in H |- *; [exact H|].
+    intros me args locs es r ds H Hk Hs. destruct es as [|e rest]; simpl in H |- *; [exact H|].
     destruct (dr_expr g (defs_of st) (input_data st) me args locs e) as [ra d1] eqn:Da.
-    destruct ra as [v|k|]; [|inversion H|inversion H].
+    destruct ra as [v|k|]; [| |inversion H; subst; contradiction].
+    2:{ inversion H; subst. now rewrite (IHe _ _ _ _ _ _ Da Hk Hs). }
     destruct (dr_args g (defs_of st) (input_data st) me args locs rest) as [rb d2] eqn:Db.
-    destruct rb as [vs'|k|]; [|inversion H|inversion H].
-    inversion H; subst.
-    rewrite (IHe _ _ _ _ _ _ Da ltac:(discriminate) (or_introl eq_refl) (Forall_app_l _ _ _ Hs)).
-    now rewrite (IHa _ _ _ _ _ _ Db (Forall_app_r _ _ _ Hs)).
+    assert (Hds : ds = d1 ++ d2) by (destruct rb; inversion H; reflexivity). subst ds.
+    assert (Kb : okres rb).
+    { destruct rb; [exact I|inversion H; subst; exact Hk|inversion H; subst; contradiction]. }
+    rewrite (IHe _ _ _ _ _ _ Da I (Forall_app_l _ _ _ Hs)).
+    rewrite (IHa _ _ _ _ _ _ Db Kb (Forall_app_r _ _ _ Hs)). exact H.
   - (* node *)
-    intros i v ds H Hs. simpl in H |- *. unfold defs_of in H; simpl in H.
-    destruct (lookup_cell (s_cells st) (fst i)) as [cl|] eqn:El; [|inversion H].
+    intros i r ds H Hk Hs. simpl in H |- *. unfold defs_of in H; simpl in H.
+    destruct (lookup_cell (s_cells st) (fst i)) as [cl|] eqn:El; [|inversion H; subst; simpl in Hk; discriminate Hk].
     destruct (cl_cached cl) eqn:Ec.
     + assert (Hds : ds = [RItem i]).
       { destruct (lookup_data (input_data st) i); [inversion H; reflexivity|].
@@ -160,8 +149,8 @@ Proof.
       rewrite (ag_cell _ _ _ _ _ _ AG _ Hpc), El, Ec, (ag_inp _ _ _ _ _ _ AG i Hpi).
       destruct (lookup_data (input_data st) i) as [w|] eqn:Ei; [exact H|].
       destruct (dr_body g (s_cells st, s_refs st) (input_data st) (fst i) (snd i) [] (cl_body cl)) as [rb dsb] eqn:Db.
-      destruct rb as [vb|k|]; [|inversion H|inversion H].
-      (* the element's own reads are safe by inheritance *)
+      assert (Hrb : rb <> OutOfFuel) by (intros ->; inversion H; subst; contradiction).
+      (* the element is held: its own evaluation has a value, and its reads are safe by inheritance *)
       assert (Hni : mem_item i (s_inputs st) = false).
       { rewrite lookup_input_data in Ei. destruct (mem_item i (s_inputs st)); [|reflexivity].
         exfalso. now apply Hhas. }
@@ -169,43 +158,46 @@ Proof.
       unfold dr_own, defs_of in Hown; simpl in Hown. rewrite El in Hown.
       destruct (dr_body f0 (s_cells st, s_refs st) (input_data st) (fst i) (snd i) [] (cl_body cl)) as [r0 d0] eqn:D0.
       assert (Hr0 : r0 <> OutOfFuel) by (intros ->; inversion Hown).
-      destruct (dr_body_det _ _ _ _ _ _ _ _ _ _ _ _ Db ltac:(discriminate) D0 Hr0) as (<- & <-).
+      destruct (dr_body_det _ _ _ _ _ _ _ _ _ _ _ _ Db Hrb D0 Hr0) as (<- & <-).
+      destruct rb as [vb|k|]; [|inversion Hown|inversion Hown].
       inversion Hown; subst ds0.
-      assert (Hbok : body_ok (cl_body cl) = true) by (eapply (ag_ok _ _ _ _ _ _ AG); eauto).
-      rewrite (IHb _ _ _ _ _ _ Db Hbok Hsafe). exact H.
+      rewrite (IHb _ _ _ _ _ _ Db I Hsafe). exact H.
     + destruct (dr_body g (s_cells st, s_refs st) (input_data st) (fst i) (snd i) [] (cl_body cl)) as [rb dsb] eqn:Db.
-      destruct rb as [vb|k|]; [|inversion H|inversion H].
-      assert (ds = RObj (fst i) :: dsb) by (inversion H; reflexivity). subst ds.
+      assert (Hd : ds = RObj (fst i) :: dsb) by (destruct rb; inversion H; reflexivity). subst ds.
+      assert (Kb : okres rb).
+      { destruct rb; [exact I|inversion H; subst; exact Hk|inversion H; subst; contradiction]. }
       inversion Hs as [|? ? Hx Hrest]; subst. simpl in Hx.
       rewrite (ag_cell _ _ _ _ _ _ AG _ Hx), El, Ec.
-      assert (Hbok : body_ok (cl_body cl) = true) by (eapply (ag_ok _ _ _ _ _ _ AG); eauto).
-      rewrite (IHb _ _ _ _ _ _ Db Hbok Hrest). exact H.
+      rewrite (IHb _ _ _ _ _ _ Db Kb Hrest). exact H.
   - (* body *)
-    intros me args locs rest v ds H Hbok Hs. destruct rest as [|s more]; simpl in H |- *; [exact H|].
-    simpl in Hbok. apply andb_true_iff in Hbok as (Hsok & Hmore).
+    intros me args locs rest r ds H Hk Hs. destruct rest as [|s more]; simpl in H |- *; [exact H|].
     destruct s as [e|e h].
     + destruct (dr_expr g (defs_of st) (input_data st) me args locs e) as [ra d1] eqn:Da.
-      destruct ra as [v1|k|]; [|inversion H|inversion H].
+      destruct ra as [v1|k|]; [| |inversion H; subst; contradiction].
+      2:{ inversion H; subst. now rewrite (IHe _ _ _ _ _ _ Da Hk Hs). }
       destruct (dr_body g (defs_of st) (input_data st) me args (locs ++ [v1]) more) as [rb d2] eqn:Db.
       inversion H; subst rb ds.
-      rewrite (IHe _ _ _ _ _ _ Da ltac:(discriminate) (or_introl eq_refl) (Forall_app_l _ _ _ Hs)).
-      now rewrite (IHb _ _ _ _ _ _ Db Hmore (Forall_app_r _ _ _ Hs)).
-    + simpl in Hsok.
-      destruct (dr_expr g (defs_of st) (input_data st) me args locs e) as [ra d1] eqn:Da.
-      destruct ra as [v1|k|]; [| |inversion H].
+      rewrite (IHe _ _ _ _ _ _ Da I (Forall_app_l _ _ _ Hs)).
+      now rewrite (IHb _ _ _ _ _ _ Db Hk (Forall_app_r _ _ _ Hs)).
+    + destruct (dr_expr g (defs_of st) (input_data st) me args locs e) as [ra d1] eqn:Da.
+      destruct ra as [v1|k|]; [| |inversion H; subst; contradiction].
       * destruct (dr_body g (defs_of st) (input_data st) me args (locs ++ [v1]) more) as [rb d2] eqn:Db.
         inversion H; subst rb ds.
-        rewrite (IHe _ _ _ _ _ _ Da ltac:(discriminate) (or_introl eq_refl) (Forall_app_l _ _ _ Hs)).
-        now rewrite (IHb _ _ _ _ _ _ Db Hmore (Forall_app_r _ _ _ Hs)).
-      * destruct (catchable k) eqn:Ek; [|inversion H].
+        rewrite (IHe _ _ _ _ _ _ Da I (Forall_app_l _ _ _ Hs)).
+        now rewrite (IHb _ _ _ _ _ _ Db Hk (Forall_app_r _ _ _ Hs)).
+      * destruct (catchable k) eqn:Ek.
+        2:{ inversion H; subst. simpl in Hk. congruence. }
         destruct (dr_expr g (defs_of st) (input_data st) me args locs h) as [rh d2] eqn:Dh.
-        destruct rh as [v2|k2|]; [|inversion H|inversion H].
-        destruct (dr_body g (defs_of st) (input_data st) me args (locs ++ [v2]) more) as [rb d3] eqn:Db.
-        inversion H; subst rb ds.
-        pose proof (Forall_app_l _ _ _ Hs) as S1. pose proof (Forall_app_r _ _ _ Hs) as S23.
-        rewrite (IHe _ _ _ _ _ _ Da ltac:(discriminate) (or_intror Hsok) S1), Ek.
-        rewrite (IHe _ _ _ _ _ _ Dh ltac:(discriminate) (or_introl eq_refl) (Forall_app_l _ _ _ S23)).
-        now rewrite (IHb _ _ _ _ _ _ Db Hmore (Forall_app_r _ _ _ S23)).
+        destruct rh as [v2|k2|]; [| |inversion H; subst; contradiction].
+        -- destruct (dr_body g (defs_of st) (input_data st) me args (locs ++ [v2]) more) as [rb d3] eqn:Db.
+           inversion H; subst rb ds.
+           pose proof (Forall_app_l _ _ _ Hs) as S1. pose proof (Forall_app_r _ _ _ Hs) as S23.
+           rewrite (IHe _ _ _ _ _ _ Da Ek S1), Ek.
+           rewrite (IHe _ _ _ _ _ _ Dh I (Forall_app_l _ _ _ S23)).
+           now rewrite (IHb _ _ _ _ _ _ Db Hk (Forall_app_r _ _ _ S23)).
+        -- inversion H; subst.
+           rewrite (IHe _ _ _ _ _ _ Da Ek (Forall_app_l _ _ _ Hs)), Ek.
+           now rewrite (IHe _ _ _ _ _ _ Dh Hk (Forall_app_r _ _ _ Hs)).
 Qed.
 
 (** the form used below: the own reads of a safe held element *)
@@ -221,7 +213,6 @@ Proof.
   destruct (dr_body f (s_cells st, s_refs st) (input_data st) (fst j) (snd j) [] (cl_body cl)) as [rb d] eqn:Db.
   destruct rb as [vb|k|]; [|inversion H|inversion H].
   assert (d = ds) by (inversion H; reflexivity). subst d.
-  assert (Hbok : body_ok (cl_body cl) = true) by (eapply (ag_ok _ _ _ _ _ _ AG); eauto).
   destruct (locality st D' inp' PC PR PI AG f) as (_ & _ & _ & LB).
-  rewrite (LB _ _ _ _ _ _ Db Hbok Hs). exact H.
+  rewrite (LB _ _ _ _ _ _ Db I Hs). exact H.
 Qed.
